@@ -605,13 +605,19 @@ theorem checkCols_append (sch : Schema κ) (a b : List κ) :
     | none => rfl
     | some kd => cases kd <;> simp [ih]
 
-theorem checkCols_ok_of_data (sch : Schema κ) (ks : List κ) (h : ∀ k ∈ ks, aget sch k = some .data) :
+/-- Data columns and empty columns accept values. -/
+def Writable (sch : Schema κ) (k : κ) : Prop := aget sch k = some .data ∨ aget sch k = some .empty
+
+theorem checkCols_ok_of_data (sch : Schema κ) (ks : List κ) (h : ∀ k ∈ ks, Writable sch k) :
     checkCols sch ks = .ok () := by
   induction ks with
   | nil => rfl
   | cons k ks ih =>
-    simp only [checkCols, h k (by simp)]
-    exact ih (fun k' hk' => h k' (List.mem_cons_of_mem _ hk'))
+    rcases h k (by simp) with hk | hk
+    · simp only [checkCols, hk]
+      exact ih (fun k' hk' => h k' (List.mem_cons_of_mem _ hk'))
+    · simp only [checkCols, hk]
+      exact ih (fun k' hk' => h k' (List.mem_cons_of_mem _ hk'))
 
 /-- What the argument checks guarantee when they pass. -/
 theorem validate_some {sch : Schema κ} {rq : Request κ α} {opt : Options} {n : Nat}
@@ -659,7 +665,7 @@ theorem validate_some {sch : Schema κ} {rq : Request κ α} {opt : Options} {n 
 
 theorem requireAddKeys_data {sch : Schema κ} {rq : Request κ α}
     (hknown : ∀ p ∈ rq.require, (aget sch p.1).isSome = true) :
-    ∀ k ∈ requireAddKeys sch rq, aget sch k = some .data := by
+    ∀ k ∈ requireAddKeys sch rq, Writable sch k := by
   intro k hk
   unfold requireAddKeys at hk
   obtain ⟨hk1, hk2⟩ := List.mem_filter.mp hk
@@ -670,8 +676,9 @@ theorem requireAddKeys_data {sch : Schema κ} {rq : Request κ α}
   | none => rw [hx] at this; cases this
   | some kd =>
     cases kd with
-    | data => rfl
+    | data => exact Or.inl hx
     | formula => exact absurd hx hk2
+    | empty => exact Or.inr hx
 
 /-- `BulkAddOrUpdateRecord` after the argument checks, in closed form: the late column check is that
     of `col_values`, the final table is the trimmed bulk update of the table with the new rows. -/
